@@ -53,3 +53,7 @@ func init() {
 func init() {
 	prop("TMP-VALUES", []string{"ASSERT", "DIVGUARD", "ARITY", "BODYKIND", "LISTCOVER", "PRIMWIRE"}, "temporary grouping while rules are being built", "")
 }
+
+func init() {
+	prop("TMP-AGGR", []string{"ASTIMMUT", "AGGRSEM", "CLONEFRESH", "ROWCLONE", "KEYFRAME", "RESULTIDX"}, "temporary grouping while rules are being built", "")
+}
